@@ -56,6 +56,14 @@ func genBatch(r *RNG, withBad bool, maxLines int) *Scenario {
 			}
 		}
 	}
+	aliased := false
+	for _, w := range sc.Worlds {
+		aliased = aliased || len(w.CropAlias) > 0
+	}
+	if !aliased && nw >= 2 && r.Bool(0.25) {
+		// stratum: one project runs on a trimmed parameter set (its texture tables list only its own textures)
+		sc.Params = map[string]string{"pless": fmt.Sprint(r.Intn(nw))}
+	}
 	nl := r.Range(2, maxLines)
 	if r.Bool(0.5) {
 		nl = r.Range(2, min(8, maxLines))
@@ -125,9 +133,22 @@ func (sc *Scenario) lineArgs(i int) []string {
 	args := []string{"project=" + w.Loc, "plotNr=" + w.Plot, fmt.Sprintf("poligonID=L%02d", i), "fcode=" + w.FCode}
 	if len(w.CropAlias) > 0 {
 		args = append(args, "parameter=pcustom")
+	} else if k, ok := sc.plessWorld(); ok && k == bl.World {
+		args = append(args, "parameter=pless")
 	}
 	// later key=value tokens win in the run's argument map
 	return append(args, bl.Extra...)
+}
+
+// plessWorld: the world whose lines run on a reduced parameter folder (texture tables trimmed to its own textures).
+func (sc *Scenario) plessWorld() (int, bool) {
+	v, ok := sc.Params["pless"]
+	if !ok {
+		return 0, false
+	}
+	k := 0
+	fmt.Sscan(v, &k)
+	return k, k >= 0 && k < len(sc.Worlds)
 }
 
 func (sc *Scenario) lineText(i int) string { return strings.Join(sc.lineArgs(i), " ") }
@@ -143,6 +164,11 @@ func materialiseBatch(sc *Scenario, env *Env, oc *OutputCfg) (string, error) {
 	}
 	if err := customParamFolder(root, env.ParamDir, sc.Worlds); err != nil {
 		return "", err
+	}
+	if k, ok := sc.plessWorld(); ok {
+		if err := reducedParamFolder(root, env.ParamDir, sc.Worlds[k]); err != nil {
+			return "", err
+		}
 	}
 	return root, nil
 }
@@ -665,7 +691,9 @@ func init() {
 		Prop: "C03", Level: "exploration",
 		Gen: func(r *RNG, idx int, tier string) *Scenario {
 			sc := genBatch(r, false, 24)
-			sc.Params = map[string]string{}
+			if sc.Params == nil {
+				sc.Params = map[string]string{}
+			}
 			switch {
 			case isRaceIdx(idx):
 				sc.Params["mode"] = "overlap"
